@@ -2,6 +2,7 @@ package harness
 
 import (
 	"bytes"
+	"context"
 	"crypto/tls"
 	"encoding/binary"
 	"fmt"
@@ -585,6 +586,15 @@ func c16Real(w *W) {
 	tran := w.simFallback([]string{"tcp", "ws", "tls+tcp", "wss"}[w.Choose(simrt.SShape, 4)])
 	limit := []int{100, 1000, 5000}[w.Choose(simrt.SShape, 3)]
 	srvCfg, cliCfg := tlsConfigs()
+	// engine R: real sockets. engine B: the same hostile peers against the real
+	// tcp / ws / tls+tcp / wss listener code (with crypto/tls, net/http and
+	// gorilla) on the simulated network, under the decided schedule
+	rawDial := func(hostport string) (net.Conn, error) { return net.Dial("tcp", hostport) }
+	if !w.Real {
+		srvCfg, cliCfg = simTLS()
+		w.UseNet(NetCfg{Segment: w.Choose(simrt.SShape, 2) == 0})
+		rawDial = func(hostport string) (net.Conn, error) { return curNet.Dial(NetKey("tcp://" + hostport)) }
+	}
 	w.SetShape("kind", kind)
 	w.SetShape("tran", tran)
 	w.SetShape("limit", limit)
@@ -599,6 +609,12 @@ func c16Real(w *W) {
 	var lopts map[string]interface{}
 	if tran == "ws" || tran == "wss" {
 		url = tran + "://" + loopIP + ":0/sp"
+	}
+	if !w.Real {
+		url = tran + "://" + NetKey(w.Addr("tcp"))
+		if tran == "ws" || tran == "wss" {
+			url += "/sp"
+		}
 	}
 	if tran == "tls+tcp" || tran == "wss" {
 		lopts = map[string]interface{}{mangos.OptionTLSConfig: srvCfg}
@@ -627,17 +643,25 @@ func c16Real(w *W) {
 		if tcp, ok := c.(*net.TCPConn); ok {
 			_ = tcp.SetLinger(0)
 		}
+		if nc, ok := c.(*NetConn); ok {
+			nc.Reset()
+			return
+		}
 		_ = c.Close()
 	}
 	connect := func() *peerT {
 		if tran == "tcp" || tran == "tls+tcp" {
 			var c net.Conn
 			var err error
-			if tran == "tls+tcp" {
-				d := &net.Dialer{Timeout: 20 * time.Second}
-				c, err = tls.DialWithDialer(d, "tcp", hostport, cliCfg)
-			} else {
-				c, err = net.Dial("tcp", hostport)
+			c, err = rawDial(hostport)
+			if err == nil && tran == "tls+tcp" {
+				tc := tls.Client(c, cliCfg)
+				tc.SetDeadline(time.Now().Add(20 * time.Second))
+				if err = tc.Handshake(); err != nil {
+					c.Close()
+				}
+				tc.SetDeadline(time.Time{})
+				c = tc
 			}
 			if err != nil {
 				return nil
@@ -661,6 +685,10 @@ func c16Real(w *W) {
 			}
 		}
 		d := &websocket.Dialer{Subprotocols: []string{info.SelfName + ".sp.nanomsg.org"}, TLSClientConfig: cliCfg, HandshakeTimeout: 20 * time.Second}
+		if !w.Real {
+			d.HandshakeTimeout = 0
+			d.NetDialContext = func(ctx context.Context, network, a string) (net.Conn, error) { return rawDial(a) }
+		}
 		c, _, err := d.Dial(addr, nil)
 		if err != nil {
 			return nil
@@ -706,7 +734,7 @@ func c16Real(w *W) {
 		defer p.close()
 		seq++
 		tag := fmt.Sprintf("control-%d", seq)
-		time.Sleep(20 * time.Millisecond)
+		w.Sleep(20 * time.Millisecond)
 		if err := p.send(inbound(kind, uint32(seq), tag)); err != nil {
 			w.Failf("C16/control-peer-starved:"+kind, "control write: %v", err)
 			return false
@@ -742,29 +770,29 @@ func c16Real(w *W) {
 				w.Failf("C16/conforming-peer-not-attached", "cannot connect")
 				return
 			}
-			time.Sleep(20 * time.Millisecond)
+			w.Sleep(20 * time.Millisecond)
 			w.Op("hostile: an attached peer's connection is reset")
 			w.Fault("reset")
 			p.reset()
 		case 0: // raw junk at connection level
-			c, err := net.Dial("tcp", hostport)
+			c, err := rawDial(hostport)
 			if err != nil {
 				continue
 			}
 			w.Op("hostile: %d junk bytes on a fresh connection", 1+a%200)
 			w.Fault("junk")
 			c.Write(wireBody(1+a%200, a))
-			time.Sleep(10 * time.Millisecond)
+			w.Sleep(10 * time.Millisecond)
 			c.Close()
 		case 1: // handshake never completes
-			c, err := net.Dial("tcp", hostport)
+			c, err := rawDial(hostport)
 			if err != nil {
 				continue
 			}
 			w.Op("hostile: connects and stays silent")
 			w.Fault("hs-stall")
 			w.OnCleanup(func() { c.Close() })
-			time.Sleep(30 * time.Millisecond)
+			w.Sleep(30 * time.Millisecond)
 			oc := w.Do("Listener.GetOption", func() (interface{}, error) { return l.GetOption(mangos.OptionMaxRecvSize) })
 			if !oc.Wait(20 * time.Second) {
 				w.Failf("C12/call-never-returns:Listener.GetOption", "%s over %s: a peer connected and stays silent; GetOption on the listener does not return", kind, tran)
@@ -784,7 +812,7 @@ func c16Real(w *W) {
 			payload := wireBody(n, a)
 			copy(payload, inboundHeader(kind, 7))
 			w.Op("hostile: message of %d bytes, limit %d", n, limit)
-			time.Sleep(20 * time.Millisecond)
+			w.Sleep(20 * time.Millisecond)
 			_ = p.send(payload)
 			body, ok := deliverable(kind, payload)
 			exp := 0
@@ -817,7 +845,7 @@ func c16Real(w *W) {
 			if tran == "tls+tcp" || tran == "wss" {
 				continue
 			}
-			c, err := net.Dial("tcp", hostport)
+			c, err := rawDial(hostport)
 			if err != nil {
 				continue
 			}
@@ -829,7 +857,7 @@ func c16Real(w *W) {
 				c.SetReadDeadline(time.Now().Add(10 * time.Second))
 				buf := make([]byte, 64)
 				closed := false
-				for i := 0; i < 4; i++ {
+				for i := 0; i < 64; i++ { // (segmented reads may deliver mangos' own header byte by byte)
 					if _, err := c.Read(buf); err != nil {
 						ne, ok := err.(net.Error)
 						closed = !(ok && ne.Timeout())
@@ -844,14 +872,14 @@ func c16Real(w *W) {
 			} else {
 				w.Op("hostile: plain HTTP GET without upgrade")
 				c.Write([]byte("GET /sp HTTP/1.1\r\nHost: x\r\n\r\n"))
-				time.Sleep(20 * time.Millisecond)
+				w.Sleep(20 * time.Millisecond)
 			}
 			c.Close()
 		case 5: // truncated frame then close
 			if tran != "tcp" || pairLike {
 				continue
 			}
-			c, err := net.Dial("tcp", hostport)
+			c, err := rawDial(hostport)
 			if err != nil {
 				continue
 			}
@@ -860,7 +888,7 @@ func c16Real(w *W) {
 			c.Write(wcHeader(protoOf(peerKind[kind])))
 			f := wcFrame(false, wireBody(50, a))
 			c.Write(f[:1+a%(len(f)-1)])
-			time.Sleep(10 * time.Millisecond)
+			w.Sleep(10 * time.Millisecond)
 			c.Close()
 		}
 		if len(drain(0)) > 0 && k != 2 && k != 3 {
@@ -875,6 +903,7 @@ func c16Real(w *W) {
 
 func init() {
 	register(&Scenario{Name: "hostile-peers-real-transports", Prop: "C16", Engine: "R", Weight: 1, Run: c16Real})
+	register(&Scenario{Name: "hostile-peers-real-listeners-sim", Prop: "C16", Horizon: time.Hour, Weight: 8, Run: c16Real})
 }
 
 // impostorProto is a real protocol implementation that announces other
